@@ -1304,3 +1304,18 @@ m('A8-compose-takes-over-the-inner-treespec', 'C14', 'A8', 'PyTreeSpec::Compose/
     auto& inner_writable = const_cast<PyTreeSpec&>(inner_treespec);
     const std::vector<Node> taken{std::move(inner_writable.m_traversal)};
     inner_writable.m_traversal = taken;""")
+m('R4-torch-fold-skips-castable-dtypes', 'C20', 'R4', 'torch._ravel_leaves/every-dtype-takes-part', 'optree/integration/torch.py',
+  """    for from_dtype in from_dtypes[1:]:
+        to_dtype = torch.promote_types(to_dtype, from_dtype)""",
+  """    for from_dtype in from_dtypes[1:]:
+        if not torch.can_cast(from_dtype, to_dtype):
+            to_dtype = torch.promote_types(to_dtype, from_dtype)""")
+m('R4-numpy-promotion-leaves-out-the-first-dtype', 'C20', 'R4', 'numpy._ravel_leaves/every-dtype-takes-part', 'optree/integration/numpy.py',
+  """    to_dtype = np.result_type(*from_dtypes)""",
+  """    to_dtype = np.result_type(*from_dtypes[1:])""")
+m('D1-restore-only-if-the-effective-mode-is-still-ours', 'C13', 'D1', 'dict_insertion_ordered/restore-on-every-path', 'optree/registry.py',
+  """        with __REGISTRY_LOCK:
+            _C.set_dict_insertion_ordered(prev, namespace)""",
+  """        with __REGISTRY_LOCK:
+            if _C.is_dict_insertion_ordered(namespace) == bool(mode):
+                _C.set_dict_insertion_ordered(prev, namespace)""")
